@@ -133,10 +133,9 @@ func c01Gen(tier string, emit func(c01Case)) {
 	if tier == "quick" {
 		permute(c01Pool, 3, allGet)
 	} else {
-		permute(c01Pool, 3, func(p []string) {
-			// all-GET first (the densest collisions), then the mixed method sets
-			withSets(p)
-		})
+		// K = 3 with every assignment of the three basic method sets (the wider sets are covered for K <= 2)
+		msets = c01MethodSets[:3]
+		permute(c01Pool, 3, withSets)
 		permute(c01Core, 4, allGet)
 	}
 }
@@ -252,7 +251,7 @@ var c01Spec = fw.Spec[c01Case]{
 		if tier == "quick" {
 			return map[string]any{"pool": len(c01Pool), "K": "1..2 with all method sets {GET},{POST},{GET,POST},{PUT,DELETE,GET}; 3 all-GET", "request_methods": "GET,POST,PUT", "paths": len(c01Paths)}
 		}
-		return map[string]any{"pool": len(c01Pool), "K": "1..3 with method sets {GET},{POST},{GET,POST},{HEAD},{all 9}; 4 all-GET over the 10-pattern core pool", "request_methods": "GET,POST,PUT,HEAD", "paths": len(c01Paths)}
+		return map[string]any{"pool": len(c01Pool), "K": "1..2 with method sets {GET},{POST},{GET,POST},{HEAD},{all 9}; 3 with {GET},{POST},{GET,POST}; 4 all-GET over the 10-pattern core pool", "request_methods": "GET,POST,PUT,HEAD", "paths": len(c01Paths)}
 	},
 	Gen: c01Gen,
 	Run: c01Run,
